@@ -26,4 +26,16 @@ TEXT["C17"] = dict(
         "sampling; std binary search and rayon are trusted; WDB2/WDB5 not modelled. Four genuine defects found by this "
         "check were repaired in /repo (see known_findings.jsonl 'fixed' entries)."),
   technique="Lean 4 proof (round-trip by induction, interning invariant) + two-way differential correspondence")
+TEXT["C18"] = dict(
+  text=("Machine-checked Lean 4 theorems: world_to_tile(tile_to_world(x,y)) = (x,y) for all 64x64 tiles on an exact "
+        "binary32 model (kernel evaluation); an independent chunk walker recovers exactly the serialised chunk list and "
+        "framing tiles the file; for every well-formed WDT value parse(write w) = w with the version re-detected and a "
+        "second write is byte-identical; every MAOF entry the WDL writer records is the file position of that tile's "
+        "MARE header. Tied to the code by bit-exact float validation, regenerated constants, and differential execution "
+        "of writer, reader (incl. truncated files) and offset table against the real crates, plus a property oracle "
+        "(round trip, second write, conversions preserve tiles)."),
+  note=("Lean kernel + propext/Quot.sound; SoftF32, the WDT chunk-level model and the WDL layout model are hand-written; "
+        "field codecs inside fixed-layout payloads are checked by the harness, not proved; the tie is sampling. One "
+        "genuine defect (960 tiles not inverting) was repaired in /repo."),
+  technique="Lean 4 proof (kernel-evaluated finite domain on a soft-float model, chunk-framing induction) + differential correspondence")
 NA = {}
